@@ -98,14 +98,18 @@ def _is_py2_test(test):
     return txt in ("sys.version_info[0] < 3", "PYTHON_2")
 
 
+def parse_module(name, text):
+    try:
+        return ast.parse(text)
+    except SyntaxError as ex:
+        raise AnalysisError("module %s does not parse: %s" % (name, ex))
+
+
 class Module(object):
-    def __init__(self, name, text, inline=True):
+    def __init__(self, name, text, inline=True, tree=None):
         self.name = name
         self.text = text
-        try:
-            self.tree = ast.parse(text)
-        except SyntaxError as ex:
-            raise AnalysisError("module %s does not parse: %s" % (name, ex))
+        self.tree = tree if tree is not None else parse_module(name, text)
         self.inlined = None
         self.renamed = {}
         if inline:
@@ -185,8 +189,11 @@ class Program(object):
         for name in MODULES:
             if name not in sources:
                 raise AnalysisError("module %s.%s is missing" % (PKG, name))
+        trees = dict((name, parse_module(name, text)) for name, text in sources.items())
+        from .inline import import_foreign_helpers
+        self.foreign_helpers = import_foreign_helpers(trees)
         for name, text in sources.items():
-            self.modules[name] = Module(name, text)
+            self.modules[name] = Module(name, text, tree=trees[name])
         self.funcs = {}    # "module.Qual.name" -> FuncInfo
         self.classes = {}  # "module.Qual" -> ClassInfo
         for m in self.modules.values():
